@@ -166,6 +166,17 @@ Theorem C11_two_redshift_Hogg19_closed : forall DH ok d1 d2, 0 < DH -> ok < 0 ->
   DM2 * sqrt (1 + ok * DM1 ^ 2 / DH ^ 2) - DM1 * sqrt (1 + ok * DM2 ^ 2 / DH ^ 2).
 Proof. exact two_redshift_Hogg19_closed. Qed.
 
+(* the comoving volume: Hogg's closed form (eq. 29, the reference value of the per-run documented-
+   accuracy lemmas for V) IS the integral of 4 pi dV over the redshift range, for every curvature *)
+Theorem C11_V_closed_form_derivative : forall c z1 z2,
+  0 <= z1 <= z2 -> (forall z, 0 <= z <= z2 -> 0 < E2 c z) ->
+  V_def c z1 z2 = V_closed c z1 z2.
+Proof. exact V_closed_form. Qed.
+
+Example C11_V_closed_form_nonvacuous : forall z1 z2, 0 <= z1 <= z2 ->
+  V_def (mkC 3000 false (3 / 10) (8 / 10) (-1 / 10)) z1 z2 = V_closed (mkC 3000 false (3 / 10) (8 / 10) (-1 / 10)) z1 z2.
+Proof. exact V_closed_form_closed_example. Qed.
+
 (* ================================================================ the accuracy criterion *)
 (* A per-case certificate (a boolean evaluated by vm_compute over outward-rounded interval
    arithmetic) proves the statement's criterion for that case against ANY reference value, in
